@@ -8,6 +8,7 @@ from ..core import call_attr, calls_in, const, dotted, is_const, kwarg, norm, sl
 from . import c04
 
 EXPLANATION = [
+    'C05.deferred-delivery: Controller.send_hci_packet delivers to the host with call_soon(self.host.on_packet, ...), never by calling it directly.',
     'C05.buffer-geometry: in the three Read Buffer Size handlers of the virtual controller every return-parameter keyword is filled from the controller attribute of the same name.',
     'C05.queue-by-transport: host.Connection selects its packet queue by transport alone: host.le_acl_packet_queue for LE, host.acl_packet_queue for BR/EDR, on every path of __init__.',
     'C05.registered-before-emit: every Host handler that enters a link into connections / cis_links / sco_links / bis_links does so before any emit on the path (a listener that sends at once finds the handle).',
@@ -630,7 +631,24 @@ def buffer_geometry(ctx):
     R.check(n >= 8, rule, 'bumble.controller.Controller | buffer size answers', f'{n} fields', f'only {n} fields found')
 
 
+def deferred_delivery(ctx):
+    """The virtual controller hands its packets to the host through the event loop (call_soon), never by a direct call:
+    a completion or a data packet delivered synchronously re-enters the host while it is still inside the send that
+    caused it (the queue counts the packet in flight only after send() returns, a fragment sequence is interleaved with
+    the reaction to its first fragment)."""
+    R, p = ctx.r, ctx.p
+    rule = 'C05.deferred-delivery'
+    fn = p.find('bumble.controller.Controller.send_hci_packet')
+    if fn is None:
+        R.bad(rule, 'bumble.controller.Controller.send_hci_packet', 'anchor missing')
+        return
+    direct = [c for c in calls_in(fn) if dotted(c.func) == 'self.host.on_packet']
+    deferred = [c for c in calls_in(fn) if call_attr(c) in ('call_soon', 'call_soon_threadsafe') and c.args and dotted(c.args[0]) == 'self.host.on_packet']
+    R.check(bool(deferred) and not direct, rule, 'bumble.controller.Controller.send_hci_packet', 'delivered with call_soon', 'the controller calls host.on_packet() directly: the Number Of Completed Packets for a fragment reaches the host\'s queue before that fragment is counted as in flight (the credit is discarded as surplus and leaks), and whatever the host sends in reaction is emitted in the middle of the fragment sequence being sent', p.loc(direct[0]) if direct else p.loc(fn))
+
+
 RULES = [
+    ('C05.deferred-delivery', deferred_delivery),
     ('C05.buffer-geometry', buffer_geometry),
     ('C05.queue-by-transport', queue_by_transport),
     ('C05.registered-before-emit', registered_before_emit),
